@@ -94,6 +94,7 @@ var stmtForms = []struct{ name, body string }{
 	{"append-forms", "\tvar s []int\n\ts = append(s, a)\n\ts = append(s, a, b)\n\ts = append(s, mk(b)...)\n\tappend(s, 1)\n\tcopy(s, mk(a))\n\tdelete(map[int]int{}, a)\n\treturn len(s) + s[0]\n"},
 	{"string-stmts", "\ts := \"\"\n\tfor i := 0; i < 2; i++ {\n\t\ts += \"x\"\n\t\ts = s + \"y\"\n\t}\n\tfmt.Println(s)\n\tfmt.Print(a)\n\tfmt.Print(\"\\n\")\n\treturn len(s)\n"},
 	{"func-values", "\tf := g\n\th := func(x int) int {\n\t\treturn x * 2\n\t}\n\tf(a)\n\th(b)\n\treturn f(a) + h(b)\n"},
+	{"return-builtins", "\tq := grow(mk(a), b)\n\treturn q[2] + size(q) + len(conv(a))\n"},
 	{"expr-stmt-paren", "\t(g(a))\n\treturn (a + (b))\n"},
 }
 
@@ -104,6 +105,9 @@ func genStmtProgs() []*Prog {
 		extra := ""
 		if f.name == "return-calls" {
 			extra = "func pair(x int, y int) (int, int) {\n\treturn g(x), g(y)\n}\n\n"
+		}
+		if f.name == "return-builtins" {
+			extra = "func grow(s []int, x int) []int {\n\treturn append(s, x)\n}\n\nfunc size(s []int) int {\n\treturn len(s)\n}\n\nfunc conv(x int) string {\n\treturn string(rune(65 + x%2))\n}\n\n"
 		}
 		body := f.body
 		if f.name == "append-forms" {
